@@ -117,6 +117,11 @@ def run_real(case):
         sink = Sink('SINK', upstream=[up], cycle_time=case['sink'])
         names.append('SINK')
         env = s.env
+        seen = {nm: [] for nm in names}
+        for dev in s.find_assets(subtype=PartHandler):
+            if dev.name in seen:
+                # entry times as the harness sees them (clock at the moment the station's receive callback runs)
+                dev.add_receive_part_callback(lambda d_, p_: seen[d_.name].append(env.now))
         for r, q in case.get('refills', []):
             env.schedule_event(r, src.id, lambda q=q: src.adjust_part_count(q), case.get('refill_prio', 2), 'refill')
         orig = env.step
@@ -136,7 +141,13 @@ def run_real(case):
         env.step = step
         s.simulate(case['T'], print_summary=False)
         rp = s.simulation_data.get('received_part', {})
-        return [[r[0] for r in rp.get(nm, [])] for nm in names], sink.received_parts_count, names
+        recorded = [[r[0] for r in rp.get(nm, [])] for nm in names]
+        observed = [seen[nm] for nm in names]
+        if recorded != observed:
+            j = next(j for j in range(len(names)) if recorded[j] != observed[j])
+            raise Violation('C04.entry-time', f'station {names[j]}: the received_part records say parts entered at '
+                            f'{recorded[j][:6]}, the receive callbacks ran at {observed[j][:6]}')
+        return observed, sink.received_parts_count, names
 
 
 def check(case):
